@@ -221,6 +221,18 @@ def r3(ctx, v, prog, mod):
         else:
             # getc loop: a call to ferror reachable from the getc whose true edge is fatal
             fe = [x for x in cfg.reach(c) if x.op == 'call' and x.callee == 'ferror']
+            # the stream whose error flag is tested must be the one that was read
+            res_ = ir.Resolver(fn)
+            def stream_of(call):
+                a = call.ops[-1] if call.callee in ('getc', '_IO_getc', 'fgetc') else call.ops[0]
+                d = fn.def_of(a) if a[0] == 'reg' else None
+                return ir.loc_class(res_.loc(d.ops[0])) if d is not None and d.op == 'load' else None
+            rd = stream_of(c)
+            other = [x for x in fe if stream_of(x) is not None and rd is not None and stream_of(x) != rd]
+            if other:
+                rep.fail('C14.R3', key + ':ferror-on-another-stream', where(other[0]), 'yyread reads with %s from %s but tests ferror() of %s: a read error on the input is taken for a clean end of file [variant %s]' % (
+                    kind, rd[-1] if isinstance(rd, tuple) else rd, stream_of(other[0])[-1], v.name), variant=v.describe())
+                continue
             good = False
             for x in fe:
                 br = x.blk.ins[-1]
@@ -259,8 +271,55 @@ def r4(ctx, v, prog, mod):
             if not tested:
                 rep.fail('C14.R4', key, where(c), 'result of %s is not tested in %s [variant %s]' % (c.callee, fn.name, v.name), variant=v.describe())
             else:
-                rep.ok('C14.R4', '%s %s: %s@%s result tested@%s' % (v.name, fn.name, c.callee, c.line, tested.line))
+                # polarity: every failure value the callee can return must take the other edge than success (0) does
+                fv = failure_values(mod, c.callee)
+                wrong = None
+                if tested.op == 'icmp' and fv:
+                    k = [o for o in tested.ops if o[0] == 'int']
+                    if len(k) == 1 and tested.ops[1] == k[0]:
+                        def holds(val, pred=tested.pred, kk=k[0][1]):
+                            return {'eq': val == kk, 'ne': val != kk, 'slt': val < kk, 'sle': val <= kk, 'sgt': val > kk, 'sge': val >= kk,
+                                    'ult': (val % 2**32) < (kk % 2**32), 'ule': (val % 2**32) <= (kk % 2**32), 'ugt': (val % 2**32) > (kk % 2**32), 'uge': (val % 2**32) >= (kk % 2**32)}.get(pred)
+                        ok0 = holds(0)
+                        for val in sorted(fv):
+                            if holds(val) is not None and holds(val) == ok0: wrong = val
+                if wrong is not None:
+                    rep.fail('C14.R4', key + ':failure-value-taken-for-success', where(tested), '%s tests the result of %s with `%s %s`: the failure value %d that %s returns takes the same edge as success (0), '
+                             'so a failed load is reported as success [variant %s]' % (fn.name, c.callee, tested.pred, [o for o in tested.ops if o[0] == 'int'][0][1], wrong, c.callee, v.name), variant=v.describe())
+                else:
+                    rep.ok('C14.R4', '%s %s: %s@%s result tested@%s%s' % (v.name, fn.name, c.callee, c.line, tested.line, (' (failure values %s take the other edge than 0)' % sorted(fv)) if fv and tested.op == 'icmp' else ''))
     return n
+
+def failure_values(mod, callee):
+    """non-zero integer constants the (scanner-local) callee can return: stores of constants to its return slot / ret constants"""
+    f = mod.functions.get(callee)
+    if f is None or not f.blocks: return set()
+    out = set()
+    slots = set(); work = []
+    for x in f.ins:
+        if x.op == 'ret' and x.ops:
+            if x.ops[0][0] == 'int': out.add(x.ops[0][1])
+            else: work.append(x.ops[0])
+    depth = 0
+    while work and depth < 6:
+        depth += 1; nxt = []
+        for v in work:
+            d = f.def_of(v) if v[0] == 'reg' else None
+            if d is None: continue
+            if d.op == 'load' and d.ops[0][0] == 'reg' and d.ops[0] not in slots:
+                slots.add(d.ops[0])
+                for x in f.ins:
+                    if x.op == 'store' and x.ops[1] == d.ops[0]:
+                        if x.ops[0][0] == 'int': out.add(x.ops[0][1])
+                        else: nxt.append(x.ops[0])
+            elif d.op in ('sext', 'zext', 'trunc', 'phi', 'select'):
+                nxt += [o for o in d.ops if o[0] in ('reg', 'int')]
+        for v in nxt:
+            if v[0] == 'int': out.add(v[1])
+        work = [v for v in nxt if v[0] == 'reg']
+    out = {(v - 2**32) if v >= 2**31 else v for v in out}
+    out.discard(0)
+    return out
 
 def result_controls_branch(fn, call):
     """the call result (through casts / stores to a local and reloads) reaches an icmp whose result controls a br"""
